@@ -199,7 +199,9 @@ func runStorageProgram(e *storEnv, nOps int, p int) string {
 	w.L("ST new ids=%s", strings.Join(idStrs(e.ids), ","))
 	var sig strings.Builder
 	withBad := p%5 == 4
-	withGarbage := p%6 == 5
+	// an undecodable register is only planted when preloads take the sequential (< 11 ids) path:
+	// in the parallel path the set of entries cached before the failing result arrives depends on the schedule
+	withGarbage := p%6 == 5 && len(e.ids) <= 10
 	ver := 0
 	for e.step = 0; e.step < nOps; e.step++ {
 		id := e.ids[e.rng.Intn(len(e.ids))]
